@@ -391,17 +391,20 @@ def rule_prec(E, R):
         if _is_lookahead_op(i_, h):
             cur_ops |= set(pat_bindings(q["pat"]))
     R.floor(rule, "recursive calls of lex_more_with_precedence", len(rec), 1)
+    S = sem.Sem(E, h)
+    sites = S.sites()
+
+    def some_cur_op(n):
+        n = sem.peel(n)
+        return n.get("k") == "Call" and norm(n.get("callee", "")) == "core::option::Option::Some" and local_name(n["args"][0]) in cur_ops
+
+    def certain_cmps(x):
+        return [(op, l, r) for op, l, r, fr, certain in sem.weak_cmps(x.pc) if certain]
     for c in rec:
-        pre = preceding_stmts(h["body"], c) or []
-        guard = False
-        for st in pre:
-            for i in exprs(st, "If", into_closures=False):
-                cond = strip(i["cond"])
-                if cond.get("k") == "Binary" and cond["op"] == "Le" and list(exprs(i["then"], "Break")):
-                    l, r = strip(cond["l"]), strip(cond["r"])
-                    is_la = _is_lookahead_op(l, h)
-                    is_some_op = r.get("k") == "Call" and norm(r.get("callee", "")) == "core::option::Option::Some" and local_name(r["args"][0]) in cur_ops
-                    guard = guard or (is_la and is_some_op)
+        xs = [x for x in sites if x.node is c]
+        # on the way to the nested call it is established that the operator ahead binds strictly tighter than the current one:
+        # `Some(op) < lookahead.op` in whatever spelling (`if la <= Some(op) { break }`, `while la > Some(op)`, a named condition)
+        guard = bool(xs) and all(any(op == "Lt" and some_cur_op(l) and _is_lookahead_op(r, h) for op, l, r in certain_cmps(x)) for x in xs)
         R.check(guard, rule, fn, "recursion only for a strictly tighter operator (`lookahead.0 <= Some(op)` breaks first)",
                 "with `<` instead of `<=` an equal-precedence chain would recurse without bound and associate to the right", c["sp"])
         # min_prec argument is lookahead.0
@@ -409,17 +412,14 @@ def rule_prec(E, R):
         a1 = strip(args[1]) if len(args) > 1 else {}
         ok = _is_lookahead_op(a1, h)
         R.check(ok, rule, fn, "the nested call's lower bound is the operator just seen", where=c["sp"])
-    # the reset
+    # the reset: under `lookahead.op < min_prec` the lookahead is replaced by (None, rest)
     reset = False
-    for i in exprs(h["body"], "If", into_closures=False):
-        cond = strip(i["cond"])
-        if cond.get("k") == "Binary" and cond["op"] == "Lt" and is_param(cond["r"], h, 2):
-            l = strip(cond["l"])
-            if _is_lookahead_op(l, h):
-                asg = [x for x in exprs(i["then"], "Assign") if is_param(x["l"], h, 3)]
-                nones = [p_ for p_ in exprs(asg[0]["r"], "Path") if def_path(p_) == "core::option::Option::None" and
-                         "LogicalOp" in norm(p_.get("ty", ""))] if len(asg) == 1 else []
-                reset = len(nones) == 1
+    for x in sites:
+        n = x.node
+        if n.get("k") == "Assign" and is_param(n["l"], h, 3):
+            nones = [p_ for p_ in exprs(n["r"], "Path") if def_path(p_) == "core::option::Option::None" and "LogicalOp" in norm(p_.get("ty", ""))]
+            if len(nones) == 1 and any(op == "Lt" and _is_lookahead_op(l, h) and is_param(r, h, 2) for op, l, r in certain_cmps(x)):
+                reset = True
     R.check(reset, rule, fn, "an operator looser than min_prec is handed back to the caller", where=h["span"])
     # entry: lex_with starts with min_prec None
     fe = "<ast::logical_expr::LogicalExpr as lex::LexWith<&ast::parse::FilterParser>>::lex_with"
